@@ -305,7 +305,7 @@ impl Prop for C07 {
         ]
     }
     fn cases(&self, tier: Tier) -> u32 {
-        tier.pick(20_000, 500_000)
+        tier.pick(80_000, 500_000)
     }
     fn enumerated_subspaces(&self, _tier: Tier) -> Vec<String> {
         vec![
